@@ -8,7 +8,8 @@ From V.C16 Require Import Model Spec Corr Wf ProofsSeries ProofsL125 ProofsSplit
 From Coq Require Import ZifyBool.
 Local Open Scope Z_scope.
 
-Definition rng_flag (c : case) : bool := match c with Plan _ _ _ _ _ _ _ same => same | _ => true end.
+Definition rng_flag (c : case) : bool :=
+  match c with Plan _ _ _ _ _ _ _ same => same | Engine _ _ _ _ _ same => same | _ => true end.
 
 Lemma lz_eqb_eq a b : lz_eqb a b = true <-> a = b.
 Proof. apply list_eqb_spec. intros x y. apply Z.eqb_eq. Qed.
@@ -33,17 +34,15 @@ Proof.
   rewrite (proj2 (canonicalb_spec x) Hx), IH. reflexivity.
 Qed.
 
-Lemma plan_bridge total nc cap buffer fee os p :
+Lemma plan_core_bridge total nc cap buffer fee (orc : oracle) p :
   zatoshi total -> zatoshi buffer -> zatoshi fee -> 1 <= cap ->
-  plan_denominations total nc cap buffer fee (eval_oracle os) = Ok p ->
-  plan_ok total nc cap buffer fee os p = true.
+  plan_denominations total nc cap buffer fee orc = Ok p ->
+  plan_core_ok total nc cap buffer fee p = true.
 Proof.
   intros Ht Hb Hf Hc Hp.
-  destruct (plan_crossings total nc cap buffer fee _ Ht Hb Hf Hc p Hp) as [C1 [C2 [C3 [k C4]]]].
-  destruct (plan_conservation total nc cap buffer fee _ Ht Hb Hf Hc p Hp) as [V1 [V2 [V3 [V4 [V5 [V6 V7]]]]]].
-  destruct (plan_fees total nc cap buffer fee _ Ht Hb Hf Hc p Hp) as [F1 F2].
-  pose proof (plan_residual total nc cap buffer fee (eval_oracle os) Ht Hb Hf Hc p) as R.
-  unfold plan_ok. cbn zeta.
+  destruct (plan_crossings total nc cap buffer fee orc Ht Hb Hf Hc p Hp) as [C1 [C2 [C3 [k C4]]]].
+  destruct (plan_conservation total nc cap buffer fee orc Ht Hb Hf Hc p Hp) as [V1 [V2 [V3 [V4 [V5 [V6 V7]]]]]].
+  unfold plan_core_ok. cbn zeta.
   rewrite (forallb_canonical _ C1), C2. cbn [andb].
   assert (E3 : (Z.of_nat (length (p_cross p)) <=? cap) = true) by lia. rewrite E3. cbn [andb].
   rewrite C4 at 1. rewrite is_prefix_firstn. cbn [andb].
@@ -55,9 +54,19 @@ Proof.
   assert (E7 : (sumZ (p_out p) + p_fees p + optZ (p_change p) =? total) = true) by lia.
   assert (E8 : (0 <=? p_fees p) = true) by lia.
   rewrite E4, E5, E6, E7, E8. cbn [andb].
-  assert (E9 : match p_change p with Some c => 0 <? c | None => true end = true).
-  { destruct (p_change p) as [c|] eqn:Ch; [|reflexivity]. specialize (V7 c eq_refl). lia. }
-  rewrite E9. cbn [andb].
+  destruct (p_change p) as [c|] eqn:Ch; [|reflexivity]. specialize (V7 c eq_refl). lia.
+Qed.
+
+Lemma plan_bridge total nc cap buffer fee os p :
+  zatoshi total -> zatoshi buffer -> zatoshi fee -> 1 <= cap ->
+  plan_denominations total nc cap buffer fee (eval_oracle os) = Ok p ->
+  plan_ok total nc cap buffer fee os p = true.
+Proof.
+  intros Ht Hb Hf Hc Hp.
+  destruct (plan_fees total nc cap buffer fee _ Ht Hb Hf Hc p Hp) as [F1 F2].
+  pose proof (plan_residual total nc cap buffer fee (eval_oracle os) Ht Hb Hf Hc p) as R.
+  unfold plan_ok. cbn zeta.
+  rewrite (plan_core_bridge total nc cap buffer fee _ p Ht Hb Hf Hc Hp). cbn [andb].
   apply andb_true_iff. split.
   - unfold accepted_answer. destruct (p_cross p) as [|x l] eqn:Cr.
     + rewrite F1 by reflexivity. reflexivity.
@@ -69,6 +78,57 @@ Proof.
     rewrite R1, lz_eqb_refl. cbn [andb].
     destruct (cap <=? Z.of_nat (length (canonical_split (Z.to_nat cap) total buffer fee (nc =? 1)))) eqn:L;
       [reflexivity|]. cbn [orb]. specialize (R2 ltac:(lia)). lia.
+Qed.
+
+(** the oracle-free clauses do not look at the number of oracle questions *)
+Lemma plan_core_ok_core_eq total nc cap buffer fee a b :
+  planrec_core_eqb a b = true -> plan_core_ok total nc cap buffer fee a = plan_core_ok total nc cap buffer fee b.
+Proof.
+  destruct a as [a1 a2 a3 a4 a5 a6 a7 a8], b as [b1 b2 b3 b4 b5 b6 b7 b8].
+  unfold planrec_core_eqb. cbn [p_cross p_out p_change p_fees p_total p_migr p_buf p_calls].
+  rewrite !andb_true_iff. intros [[[[[[H1 H2] H3] H4] H5] H6] H7].
+  apply lz_eqb_eq in H1, H2. apply (option_eqb_spec Z.eqb Z.eqb_eq) in H3.
+  apply Z.eqb_eq in H4, H5, H6, H7. subst. reflexivity.
+Qed.
+
+Lemma core_eq_fields a b : planrec_core_eqb a b = true -> p_cross a = p_cross b /\ p_out a = p_out b /\ p_fees a = p_fees b.
+Proof.
+  unfold planrec_core_eqb. rewrite !andb_true_iff. intros [[[[[[H1 H2] H3] H4] H5] H6] H7].
+  apply lz_eqb_eq in H1, H2. apply Z.eqb_eq in H4. auto.
+Qed.
+
+Lemma model_split_empty_spec total nc cap buffer fee :
+  zatoshi total -> zatoshi buffer -> zatoshi fee -> 0 <= cap ->
+  model_split_empty total nc cap buffer fee = is_nil (canonical_split (Z.to_nat cap) total buffer fee (nc =? 1)).
+Proof.
+  intros Ht Hb Hf Hc. unfold model_split_empty.
+  rewrite (split_correct total buffer fee cap Ht Hb Hf nc Hc).
+  destruct (canonical_split (Z.to_nat cap) total buffer fee (nc =? 1)); reflexivity.
+Qed.
+
+Lemma engine_bridge notes cap buffer fee p ntx :
+  zatoshi (sumZ notes) -> zatoshi buffer -> zatoshi fee -> 1 <= cap -> 0 <= ntx ->
+  negb (is_nil (p_cross p))
+  && match plan_denominations (sumZ notes) (Z.of_nat (length notes)) cap buffer fee (obs_oracle (length (p_cross p)) ntx) with
+     | Ok pm => planrec_core_eqb pm p
+     | _ => false
+     end = true ->
+  negb (is_nil (p_cross p)) && plan_core_ok (sumZ notes) (Z.of_nat (length notes)) cap buffer fee p
+  && (0 <=? ntx) && (p_fees p =? ntx * fee) = true.
+Proof.
+  intros Ht Hb Hf Hc Hn R. apply andb_true_iff in R. destruct R as [NE R]. rewrite NE. cbn [andb].
+  destruct (plan_denominations (sumZ notes) (Z.of_nat (length notes)) cap buffer fee
+              (obs_oracle (length (p_cross p)) ntx)) as [pm| |] eqn:Em; try discriminate.
+  rewrite <- (plan_core_ok_core_eq _ _ _ _ _ pm p R).
+  rewrite (plan_core_bridge _ _ _ _ _ _ pm Ht Hb Hf Hc Em). cbn [andb].
+  assert (E0 : (0 <=? ntx) = true) by lia. rewrite E0. cbn [andb].
+  destruct (core_eq_fields pm p R) as [Ec [Eo Ef]].
+  destruct (plan_fees _ _ _ _ _ _ Ht Hb Hf Hc pm Em) as [_ F2].
+  assert (NEm : p_cross pm <> []).
+  { rewrite Ec. destruct (p_cross p); [discriminate NE | discriminate]. }
+  destruct (F2 NEm) as [a [Ha Hfees]]. unfold obs_oracle in Ha.
+  destruct (length (p_out pm) =? length (p_cross p))%nat; [|discriminate].
+  inversion Ha; subst a. rewrite Z2N.id in Hfees by lia. rewrite <- Ef. lia.
 Qed.
 
 Lemma stored_bridge cross buffer o :
@@ -100,7 +160,7 @@ Qed.
 Theorem agree_implies_property c :
   wf_case c = true -> rng_flag c = true -> run_case c = true -> prop_case c = true.
 Proof.
-  destruct c as [total nc cap buffer fee os o same | hi floor o | v o | cross buffer o];
+  destruct c as [total nc cap buffer fee os o same | hi floor o | v o | cross buffer o | notes cap buffer fee o same];
     cbn [wf_case rng_flag run_case prop_case]; intros W G R.
   - subst same. cbn [andb].
     repeat match goal with H : _ && _ = true |- _ => apply andb_true_iff in H; destruct H end.
@@ -117,4 +177,12 @@ Proof.
     rewrite is_canonical_canonicalb in R. rewrite Bool.eqb_true_iff in R. subst b.
     apply Bool.eqb_reflx.
   - apply andb_true_iff in W. destruct W as [W1 W2]. apply stored_bridge; assumption.
+  - subst same. cbn [andb].
+    repeat match goal with H : _ && _ = true |- _ => apply andb_true_iff in H; destruct H end.
+    assert (Hc : 1 <= cap) by lia.
+    pose proof (is_zat_P _ H5) as Ht. pose proof (is_zat_P _ H4) as Hb. pose proof (is_zat_P _ H3) as Hf.
+    destruct o as [[p ntx]| [ | | ] |]; try discriminate.
+    + apply engine_bridge; try assumption. unfold in_u64, in_range in H0. lia.
+    + rewrite model_split_empty_spec in R by (try assumption; lia). exact R.
+    + rewrite model_split_empty_spec in R by (try assumption; lia). exact R.
 Qed.
